@@ -4,7 +4,6 @@ package bag
 
 import (
 	"github.com/ohler55/ojg/jp"
-	"github.com/ohler55/ojg/sen"
 	"github.com/ohler55/slip"
 	"github.com/ohler55/slip/pkg/flavors"
 )
@@ -85,9 +84,9 @@ func parseBag(s *slip.Scope, obj *flavors.Instance, value, path slip.Object, dep
 	var v any
 	switch tv := value.(type) {
 	case slip.String:
-		v = sen.MustParse([]byte(tv))
+		v = mustParseSEN([]byte(tv))
 	case slip.Octets:
-		v = sen.MustParse([]byte(tv))
+		v = mustParseSEN([]byte(tv))
 	default:
 		slip.TypePanic(s, depth, "string", value, "string", "octets")
 	}
